@@ -27,28 +27,30 @@ VARIABLES tcp,        \* TRUE: TcpServer / TcpClient connection; FALSE: raw Buff
           consumed,   \* bytes consumed by the receive callback
           presented,  \* stream offset up to which bytes were shown to the receive callback
           incb,       \* 1 while inside the receive callback
-          pshut,      \* 0 | 1 peer shut down its sending side | 2 peer closed
+          pshut,      \* 0 | 1 peer shut down its sending side | 2 peer closed | 3 peer aborted (reset)
           eof,        \* the object has seen read()==0 or a read error
           closeRep,   \* number of peer-close notifications
-          wfail       \* a write failed because the peer is gone
-cvars == <<tcp, run, thr, sent, pend, written, pgot, pwrote, rtot, consumed, presented, incb, pshut, eof, closeRep, wfail>>
+          wfail,      \* a write failed because the peer is gone
+          peof,       \* what ended the peer's reading: 0 nothing yet | 1 end-of-file | 2 an error (ECONNRESET)
+          clean       \* the local side went away having read everything the peer wrote, and the peer wrote nothing since
+cvars == <<tcp, run, thr, sent, pend, written, pgot, pwrote, rtot, consumed, presented, incb, pshut, eof, closeRep, wfail, peof, clean>>
 
 Blank == /\ tcp = FALSE /\ run = "None" /\ thr = 0 /\ sent = 0 /\ pend = 0 /\ written = 0 /\ pgot = 0 /\ pwrote = 0
          /\ rtot = 0 /\ consumed = 0 /\ presented = 0 /\ incb = 0 /\ pshut = 0 /\ eof = FALSE /\ closeRep = 0
-         /\ wfail = FALSE
+         /\ wfail = FALSE /\ peof = 0 /\ clean = FALSE
 BlankNext == /\ tcp' = FALSE /\ run' = "None" /\ thr' = 0 /\ sent' = 0 /\ pend' = 0 /\ written' = 0 /\ pgot' = 0
              /\ pwrote' = 0 /\ rtot' = 0 /\ consumed' = 0 /\ presented' = 0 /\ incb' = 0 /\ pshut' = 0 /\ eof' = FALSE
-             /\ closeRep' = 0 /\ wfail' = FALSE
+             /\ closeRep' = 0 /\ wfail' = FALSE /\ peof' = 0 /\ clean' = FALSE
 
 Start(isTcp, t) ==
   /\ run = "None" /\ tcp' = isTcp /\ thr' = t /\ run' = (IF isTcp THEN "Running" ELSE "Inited")
-  /\ UNCHANGED <<sent, pend, written, pgot, pwrote, rtot, consumed, presented, incb, pshut, eof, closeRep, wfail>>
+  /\ UNCHANGED <<sent, pend, written, pgot, pwrote, rtot, consumed, presented, incb, pshut, eof, closeRep, wfail, peof, clean>>
 
 (* ---- sending ------------------------------------------------------------------------- *)
 SendCall(n) ==
   /\ run # "None" /\ pend = 0 /\ n > 0
   /\ pend' = n /\ sent' = sent + n
-  /\ UNCHANGED <<tcp, run, thr, written, pgot, pwrote, rtot, consumed, presented, incb, pshut, eof, closeRep, wfail>>
+  /\ UNCHANGED <<tcp, run, thr, written, pgot, pwrote, rtot, consumed, presented, incb, pshut, eof, closeRep, wfail, peof, clean>>
 
 SendRet(ok) ==
   /\ pend > 0 /\ pend' = 0
@@ -56,7 +58,7 @@ SendRet(ok) ==
      ELSE /\ sent' = sent - pend                 \* refused: none of it may have been written
           /\ written <= sent - pend
           /\ run = "Gone"                        \* a live stream accepts what it is given
-  /\ UNCHANGED <<tcp, run, thr, written, pgot, pwrote, rtot, consumed, presented, incb, pshut, eof, closeRep, wfail>>
+  /\ UNCHANGED <<tcp, run, thr, written, pgot, pwrote, rtot, consumed, presented, incb, pshut, eof, closeRep, wfail, peof, clean>>
 
 (* the object wrote to its descriptor: the bytes the kernel took must continue the stream exactly where the   *)
 (* previous write stopped, and must have been handed to send() before (in order, exactly once, nothing invented) *)
@@ -64,17 +66,18 @@ SysWrite(ret, runs, again) ==
   /\ run # "None"
   /\ IF ret > 0 THEN /\ runs = Run(written, ret) /\ written + ret <= sent
                      /\ written' = written + ret /\ wfail' = wfail
-     ELSE IF ret = 0 THEN UNCHANGED <<written, wfail>>
-     ELSE /\ (again \/ pshut = 2)                \* EAGAIN, or the peer is gone (EPIPE / ECONNRESET)
+     ELSE IF ret = 0 THEN UNCHANGED <<written, wfail, peof, clean>>
+     ELSE /\ (again \/ pshut >= 2)               \* EAGAIN, or the peer is gone (EPIPE / ECONNRESET)
           /\ wfail' = (wfail \/ ~again) /\ written' = written
-  /\ UNCHANGED <<tcp, run, thr, sent, pend, pgot, pwrote, rtot, consumed, presented, incb, pshut, eof, closeRep>>
+  /\ UNCHANGED <<tcp, run, thr, sent, pend, pgot, pwrote, rtot, consumed, presented, incb, pshut, eof, closeRep, peof, clean>>
 
 (* the raw peer read n bytes: they continue the stream; end-of-file only after the local side went away *)
-PeerRead(n, runs, sawEof) ==
+PeerRead(n, runs, sawEof, sawErr) ==
   /\ run # "None"
   /\ runs = Run(pgot, n) /\ pgot + n <= written /\ pgot' = pgot + n
   /\ sawEof => run = "Gone"
-  /\ UNCHANGED <<tcp, run, thr, sent, pend, written, pwrote, rtot, consumed, presented, incb, pshut, eof, closeRep, wfail>>
+  /\ peof' = (IF sawEof /\ peof = 0 THEN (IF sawErr THEN 2 ELSE 1) ELSE peof)
+  /\ UNCHANGED <<tcp, run, thr, sent, pend, written, pwrote, rtot, consumed, presented, incb, pshut, eof, closeRep, wfail, clean>>
 
 SendComplete ==
   /\ run # "None"
@@ -85,18 +88,19 @@ SendComplete ==
 (* ---- receiving ----------------------------------------------------------------------- *)
 PeerWrite(ret) ==
   /\ run # "None" /\ pshut = 0 /\ pwrote' = pwrote + ret
-  /\ UNCHANGED <<tcp, run, thr, sent, pend, written, pgot, rtot, consumed, presented, incb, pshut, eof, closeRep, wfail>>
+  /\ clean' = (clean /\ ret = 0)      \* writing into a connection the local side has left provokes a reset
+  /\ UNCHANGED <<tcp, run, thr, sent, pend, written, pgot, rtot, consumed, presented, incb, pshut, eof, closeRep, wfail, peof>>
 
 PeerShut(how) ==
   /\ run # "None" /\ pshut < how /\ pshut' = how
-  /\ UNCHANGED <<tcp, run, thr, sent, pend, written, pgot, pwrote, rtot, consumed, presented, incb, eof, closeRep, wfail>>
+  /\ UNCHANGED <<tcp, run, thr, sent, pend, written, pgot, pwrote, rtot, consumed, presented, incb, eof, closeRep, wfail, peof, clean>>
 
 SysRead(ret, runs, again) ==
   /\ run # "None"
   /\ IF ret > 0 THEN /\ runs = Run(rtot, ret) /\ rtot + ret <= pwrote /\ rtot' = rtot + ret /\ eof' = eof
-     ELSE IF ret = 0 THEN /\ pshut # 0 /\ rtot = pwrote /\ eof' = TRUE /\ rtot' = rtot
-     ELSE /\ (again \/ pshut = 2) /\ eof' = (eof \/ ~again) /\ rtot' = rtot
-  /\ UNCHANGED <<tcp, run, thr, sent, pend, written, pgot, pwrote, consumed, presented, incb, pshut, closeRep, wfail>>
+     ELSE IF ret = 0 THEN /\ pshut # 0 /\ (rtot = pwrote \/ pshut = 3) /\ eof' = TRUE /\ rtot' = rtot
+     ELSE /\ (again \/ pshut >= 2) /\ eof' = (eof \/ ~again) /\ rtot' = rtot
+  /\ UNCHANGED <<tcp, run, thr, sent, pend, written, pgot, pwrote, consumed, presented, incb, pshut, closeRep, wfail, peof, clean>>
 
 (* the receive callback is shown exactly the read-but-unconsumed bytes: in order, nothing lost or duplicated, *)
 (* what an earlier callback left unconsumed comes again together with the later data; never after the close report *)
@@ -104,31 +108,34 @@ RecvCall(len, runs) ==
   /\ run # "None" /\ incb = 0 /\ closeRep = 0
   /\ len = rtot - consumed /\ runs = Run(consumed, len)
   /\ presented' = rtot /\ incb' = 1
-  /\ UNCHANGED <<tcp, run, thr, sent, pend, written, pgot, pwrote, rtot, consumed, pshut, eof, closeRep, wfail>>
+  /\ UNCHANGED <<tcp, run, thr, sent, pend, written, pgot, pwrote, rtot, consumed, pshut, eof, closeRep, wfail, peof, clean>>
 
 RecvRet(c) ==
   /\ incb = 1 /\ c <= rtot - consumed
   /\ consumed' = consumed + c /\ incb' = 0
-  /\ UNCHANGED <<tcp, run, thr, sent, pend, written, pgot, pwrote, rtot, presented, pshut, eof, closeRep, wfail>>
+  /\ UNCHANGED <<tcp, run, thr, sent, pend, written, pgot, pwrote, rtot, presented, pshut, eof, closeRep, wfail, peof, clean>>
 
 (* peer close reported exactly once, after all data that preceded it *)
 Delivered == rtot - consumed >= thr => presented = rtot
 CloseReport ==
   /\ run # "None" /\ incb = 0
-  /\ closeRep = 0 /\ pshut # 0 /\ eof /\ rtot = pwrote /\ Delivered
+  /\ closeRep = 0 /\ pshut # 0 /\ eof /\ Delivered
+  /\ (rtot = pwrote \/ pshut = 3)       \* an aborting peer may take unread bytes with it (kernel); what WAS read must have been delivered
   /\ closeRep' = 1 /\ run' = (IF tcp THEN "Gone" ELSE run)
-  /\ UNCHANGED <<tcp, thr, sent, pend, written, pgot, pwrote, rtot, consumed, presented, incb, pshut, eof, wfail>>
+  /\ clean' = (IF tcp THEN rtot = pwrote ELSE clean)
+  /\ UNCHANGED <<tcp, thr, sent, pend, written, pgot, pwrote, rtot, consumed, presented, incb, pshut, eof, wfail, peof>>
 
 (* ---- control --------------------------------------------------------------------------- *)
 Enable(ok) ==
   /\ ~tcp /\ run \in {"Inited", "Running"} /\ ok /\ run' = "Running"
-  /\ UNCHANGED <<tcp, thr, sent, pend, written, pgot, pwrote, rtot, consumed, presented, incb, pshut, eof, closeRep, wfail>>
+  /\ UNCHANGED <<tcp, thr, sent, pend, written, pgot, pwrote, rtot, consumed, presented, incb, pshut, eof, closeRep, wfail, peof, clean>>
 Disable(ok) ==
   /\ ~tcp /\ run \in {"Inited", "Running"} /\ ok /\ run' = "Inited"
-  /\ UNCHANGED <<tcp, thr, sent, pend, written, pgot, pwrote, rtot, consumed, presented, incb, pshut, eof, closeRep, wfail>>
+  /\ UNCHANGED <<tcp, thr, sent, pend, written, pgot, pwrote, rtot, consumed, presented, incb, pshut, eof, closeRep, wfail, peof, clean>>
 Disconnect(ok) ==
   /\ tcp /\ run # "None" /\ ok \in BOOLEAN /\ run' = "Gone"      \* the return value is not part of the statement
-  /\ UNCHANGED <<tcp, thr, sent, pend, written, pgot, pwrote, rtot, consumed, presented, incb, pshut, eof, closeRep, wfail>>
+  /\ clean' = (IF run = "Gone" THEN clean ELSE rtot = pwrote)
+  /\ UNCHANGED <<tcp, thr, sent, pend, written, pgot, pwrote, rtot, consumed, presented, incb, pshut, eof, closeRep, wfail, peof>>
 
 (* ---- quiescence: the driver let the loop run and the peer read until nothing moved any more ------------- *)
 (* A running stream whose peer is still there has by then delivered everything handed to it (however the     *)
@@ -138,5 +145,10 @@ Settled ==
   /\ run # "None" /\ pend = 0 /\ incb = 0
   /\ (run = "Running" /\ pshut = 0 /\ ~wfail) => (written = sent /\ pgot = written)
   /\ run = "Running" => (rtot = pwrote /\ Delivered /\ pshut = 0)
+  \* The local side went away (disconnect / stop, or teardown after the peer's half close) while the peer can still
+  \* read, with no unread input of its own and nothing written into it afterwards: the descriptor is closed gracefully,
+  \* i.e. every byte that had been WRITTEN to it (what send-complete vouches for; bytes still in the object's own
+  \* queue at a local disconnect are dropped by design) reaches the peer, followed by end-of-file - not a reset.
+  /\ (tcp /\ run = "Gone" /\ clean /\ pshut <= 1) => (pgot = written /\ peof = 1)
   /\ UNCHANGED cvars
 =============================================================================
